@@ -88,24 +88,24 @@ Props/C01.vos Props/C01.vok Props/C01.required_vos: Props/C01.v Props/Shipped.vo
 Props/C02.vo Props/C02.glob Props/C02.v.beautified Props/C02.required_vo: Props/C02.v Props/Shipped.vo Proofs/MatchProof.vo Proofs/Sat.vo Proofs/ApiFacts.vo
 Props/C02.vio: Props/C02.v Props/Shipped.vio Proofs/MatchProof.vio Proofs/Sat.vio Proofs/ApiFacts.vio
 Props/C02.vos Props/C02.vok Props/C02.required_vos: Props/C02.v Props/Shipped.vos Proofs/MatchProof.vos Proofs/Sat.vos Proofs/ApiFacts.vos
-Props/C03.vo Props/C03.glob Props/C03.v.beautified Props/C03.required_vo: Props/C03.v Props/Shipped.vo Proofs/ApiFacts.vo Proofs/ScanRef.vo Proofs/ParseGrammar.vo
-Props/C03.vio: Props/C03.v Props/Shipped.vio Proofs/ApiFacts.vio Proofs/ScanRef.vio Proofs/ParseGrammar.vio
-Props/C03.vos Props/C03.vok Props/C03.required_vos: Props/C03.v Props/Shipped.vos Proofs/ApiFacts.vos Proofs/ScanRef.vos Proofs/ParseGrammar.vos
+Props/C03.vo Props/C03.glob Props/C03.v.beautified Props/C03.required_vo: Props/C03.v Props/Shipped.vo Proofs/ApiFacts.vo Proofs/ScanRef.vo Proofs/ParseGrammar.vo Model/ParseStack.vo Proofs/ParseStack.vo
+Props/C03.vio: Props/C03.v Props/Shipped.vio Proofs/ApiFacts.vio Proofs/ScanRef.vio Proofs/ParseGrammar.vio Model/ParseStack.vio Proofs/ParseStack.vio
+Props/C03.vos Props/C03.vok Props/C03.required_vos: Props/C03.v Props/Shipped.vos Proofs/ApiFacts.vos Proofs/ScanRef.vos Proofs/ParseGrammar.vos Model/ParseStack.vos Proofs/ParseStack.vos
 Props/C04.vo Props/C04.glob Props/C04.v.beautified Props/C04.required_vo: Props/C04.v Props/Shipped.vo Proofs/ApiFacts.vo Proofs/Laws.vo
 Props/C04.vio: Props/C04.v Props/Shipped.vio Proofs/ApiFacts.vio Proofs/Laws.vio
 Props/C04.vos Props/C04.vok Props/C04.required_vos: Props/C04.v Props/Shipped.vos Proofs/ApiFacts.vos Proofs/Laws.vos
-Props/C05.vo Props/C05.glob Props/C05.v.beautified Props/C05.required_vo: Props/C05.v Props/Shipped.vo Spec/Lex.vo Spec/Grammar.vo Spec/Reject.vo Proofs/ScanRef.vo Proofs/ParseGrammar.vo Proofs/ApiFacts.vo Proofs/RejectProof.vo Proofs/Unknown.vo Proofs/IdWords.vo
-Props/C05.vio: Props/C05.v Props/Shipped.vio Spec/Lex.vio Spec/Grammar.vio Spec/Reject.vio Proofs/ScanRef.vio Proofs/ParseGrammar.vio Proofs/ApiFacts.vio Proofs/RejectProof.vio Proofs/Unknown.vio Proofs/IdWords.vio
-Props/C05.vos Props/C05.vok Props/C05.required_vos: Props/C05.v Props/Shipped.vos Spec/Lex.vos Spec/Grammar.vos Spec/Reject.vos Proofs/ScanRef.vos Proofs/ParseGrammar.vos Proofs/ApiFacts.vos Proofs/RejectProof.vos Proofs/Unknown.vos Proofs/IdWords.vos
+Props/C05.vo Props/C05.glob Props/C05.v.beautified Props/C05.required_vo: Props/C05.v Props/Shipped.vo Spec/Lex.vo Spec/Grammar.vo Spec/Reject.vo Proofs/ScanRef.vo Proofs/ParseGrammar.vo Proofs/ApiFacts.vo Proofs/RejectProof.vo Proofs/Unknown.vo Proofs/IdWords.vo Model/ParseStack.vo Proofs/ParseStack.vo
+Props/C05.vio: Props/C05.v Props/Shipped.vio Spec/Lex.vio Spec/Grammar.vio Spec/Reject.vio Proofs/ScanRef.vio Proofs/ParseGrammar.vio Proofs/ApiFacts.vio Proofs/RejectProof.vio Proofs/Unknown.vio Proofs/IdWords.vio Model/ParseStack.vio Proofs/ParseStack.vio
+Props/C05.vos Props/C05.vok Props/C05.required_vos: Props/C05.v Props/Shipped.vos Spec/Lex.vos Spec/Grammar.vos Spec/Reject.vos Proofs/ScanRef.vos Proofs/ParseGrammar.vos Proofs/ApiFacts.vos Proofs/RejectProof.vos Proofs/Unknown.vos Proofs/IdWords.vos Model/ParseStack.vos Proofs/ParseStack.vos
 Props/C06.vo Props/C06.glob Props/C06.v.beautified Props/C06.required_vo: Props/C06.v Props/Shipped.vo Spec/Eval.vo Spec/Units.vo WF/Units.vo Proofs/ApiFacts.vo Proofs/Laws.vo Proofs/MatchProof.vo Proofs/Sat.vo Proofs/RoundTrip.vo Proofs/BytesFacts.vo
 Props/C06.vio: Props/C06.v Props/Shipped.vio Spec/Eval.vio Spec/Units.vio WF/Units.vio Proofs/ApiFacts.vio Proofs/Laws.vio Proofs/MatchProof.vio Proofs/Sat.vio Proofs/RoundTrip.vio Proofs/BytesFacts.vio
 Props/C06.vos Props/C06.vok Props/C06.required_vos: Props/C06.v Props/Shipped.vos Spec/Eval.vos Spec/Units.vos WF/Units.vos Proofs/ApiFacts.vos Proofs/Laws.vos Proofs/MatchProof.vos Proofs/Sat.vos Proofs/RoundTrip.vos Proofs/BytesFacts.vos
 Props/C07.vo Props/C07.glob Props/C07.v.beautified Props/C07.required_vo: Props/C07.v Props/Shipped.vo Proofs/Laws.vo Proofs/Respell.vo
 Props/C07.vio: Props/C07.v Props/Shipped.vio Proofs/Laws.vio Proofs/Respell.vio
 Props/C07.vos Props/C07.vok Props/C07.required_vos: Props/C07.v Props/Shipped.vos Proofs/Laws.vos Proofs/Respell.vos
-Props/C10.vo Props/C10.glob Props/C10.v.beautified Props/C10.required_vo: Props/C10.v Props/Shipped.vo Spec/Eval.vo Proofs/Laws.vo Proofs/Respell.vo Proofs/Split.vo Proofs/SpacesAnywhere.vo
-Props/C10.vio: Props/C10.v Props/Shipped.vio Spec/Eval.vio Proofs/Laws.vio Proofs/Respell.vio Proofs/Split.vio Proofs/SpacesAnywhere.vio
-Props/C10.vos Props/C10.vok Props/C10.required_vos: Props/C10.v Props/Shipped.vos Spec/Eval.vos Proofs/Laws.vos Proofs/Respell.vos Proofs/Split.vos Proofs/SpacesAnywhere.vos
+Props/C10.vo Props/C10.glob Props/C10.v.beautified Props/C10.required_vo: Props/C10.v Props/Shipped.vo Spec/Eval.vo Spec/Grammar.vo Proofs/Lexo.vo Proofs/Laws.vo Proofs/Respell.vo Proofs/Split.vo Proofs/SpacesAnywhere.vo Proofs/Subst.vo Proofs/SubstText.vo
+Props/C10.vio: Props/C10.v Props/Shipped.vio Spec/Eval.vio Spec/Grammar.vio Proofs/Lexo.vio Proofs/Laws.vio Proofs/Respell.vio Proofs/Split.vio Proofs/SpacesAnywhere.vio Proofs/Subst.vio Proofs/SubstText.vio
+Props/C10.vos Props/C10.vok Props/C10.required_vos: Props/C10.v Props/Shipped.vos Spec/Eval.vos Spec/Grammar.vos Proofs/Lexo.vos Proofs/Laws.vos Proofs/Respell.vos Proofs/Split.vos Proofs/SpacesAnywhere.vos Proofs/Subst.vos Proofs/SubstText.vos
 Props/C15.vo Props/C15.glob Props/C15.v.beautified Props/C15.required_vo: Props/C15.v Props/Shipped.vo Spec/Lex.vo Proofs/ScanRef.vo Proofs/Offsets.vo Proofs/ApiFacts.vo Proofs/Unknown.vo
 Props/C15.vio: Props/C15.v Props/Shipped.vio Spec/Lex.vio Proofs/ScanRef.vio Proofs/Offsets.vio Proofs/ApiFacts.vio Proofs/Unknown.vio
 Props/C15.vos Props/C15.vok Props/C15.required_vos: Props/C15.v Props/Shipped.vos Spec/Lex.vos Proofs/ScanRef.vos Proofs/Offsets.vos Proofs/ApiFacts.vos Proofs/Unknown.vos
@@ -241,6 +241,18 @@ Proofs/ExpandProof.vos Proofs/ExpandProof.vok Proofs/ExpandProof.required_vos: P
 Proofs/RejectProof.vo Proofs/RejectProof.glob Proofs/RejectProof.v.beautified Proofs/RejectProof.required_vo: Proofs/RejectProof.v Spec/Reject.vo Proofs/BytesFacts.vo Proofs/ParseGrammar.vo
 Proofs/RejectProof.vio: Proofs/RejectProof.v Spec/Reject.vio Proofs/BytesFacts.vio Proofs/ParseGrammar.vio
 Proofs/RejectProof.vos Proofs/RejectProof.vok Proofs/RejectProof.required_vos: Proofs/RejectProof.v Spec/Reject.vos Proofs/BytesFacts.vos Proofs/ParseGrammar.vos
+Model/ParseStack.vo Model/ParseStack.glob Model/ParseStack.v.beautified Model/ParseStack.required_vo: Model/ParseStack.v Model/Parse.vo
+Model/ParseStack.vio: Model/ParseStack.v Model/Parse.vio
+Model/ParseStack.vos Model/ParseStack.vok Model/ParseStack.required_vos: Model/ParseStack.v Model/Parse.vos
+Proofs/ParseStack.vo Proofs/ParseStack.glob Proofs/ParseStack.v.beautified Proofs/ParseStack.required_vo: Proofs/ParseStack.v Model/Parse.vo Model/ParseStack.vo Spec/Grammar.vo Spec/Reject.vo Proofs/ParseGrammar.vo Proofs/RejectProof.vo
+Proofs/ParseStack.vio: Proofs/ParseStack.v Model/Parse.vio Model/ParseStack.vio Spec/Grammar.vio Spec/Reject.vio Proofs/ParseGrammar.vio Proofs/RejectProof.vio
+Proofs/ParseStack.vos Proofs/ParseStack.vok Proofs/ParseStack.required_vos: Proofs/ParseStack.v Model/Parse.vos Model/ParseStack.vos Spec/Grammar.vos Spec/Reject.vos Proofs/ParseGrammar.vos Proofs/RejectProof.vos
+Proofs/Subst.vo Proofs/Subst.glob Proofs/Subst.v.beautified Proofs/Subst.required_vo: Proofs/Subst.v Model/Parse.vo Spec/Grammar.vo Spec/Eval.vo Proofs/BytesFacts.vo Proofs/ParseGrammar.vo
+Proofs/Subst.vio: Proofs/Subst.v Model/Parse.vio Spec/Grammar.vio Spec/Eval.vio Proofs/BytesFacts.vio Proofs/ParseGrammar.vio
+Proofs/Subst.vos Proofs/Subst.vok Proofs/Subst.required_vos: Proofs/Subst.v Model/Parse.vos Spec/Grammar.vos Spec/Eval.vos Proofs/BytesFacts.vos Proofs/ParseGrammar.vos
+Proofs/SubstText.vo Proofs/SubstText.glob Proofs/SubstText.v.beautified Proofs/SubstText.required_vo: Proofs/SubstText.v Model/Scan.vo Model/Parse.vo Spec/Lex.vo Spec/Grammar.vo Proofs/BytesFacts.vo Proofs/ScanRef.vo Proofs/Split.vo Proofs/Lexo.vo Proofs/ParseGrammar.vo Proofs/Respell.vo Proofs/Subst.vo
+Proofs/SubstText.vio: Proofs/SubstText.v Model/Scan.vio Model/Parse.vio Spec/Lex.vio Spec/Grammar.vio Proofs/BytesFacts.vio Proofs/ScanRef.vio Proofs/Split.vio Proofs/Lexo.vio Proofs/ParseGrammar.vio Proofs/Respell.vio Proofs/Subst.vio
+Proofs/SubstText.vos Proofs/SubstText.vok Proofs/SubstText.required_vos: Proofs/SubstText.v Model/Scan.vos Model/Parse.vos Spec/Lex.vos Spec/Grammar.vos Proofs/BytesFacts.vos Proofs/ScanRef.vos Proofs/Split.vos Proofs/Lexo.vos Proofs/ParseGrammar.vos Proofs/Respell.vos Proofs/Subst.vos
 Proofs/Unknown.vo Proofs/Unknown.glob Proofs/Unknown.v.beautified Proofs/Unknown.required_vo: Proofs/Unknown.v Model/Scan.vo Model/Parse.vo Spec/Lex.vo Proofs/BytesFacts.vo Proofs/ScanRef.vo Proofs/Offsets.vo Proofs/Split.vo
 Proofs/Unknown.vio: Proofs/Unknown.v Model/Scan.vio Model/Parse.vio Spec/Lex.vio Proofs/BytesFacts.vio Proofs/ScanRef.vio Proofs/Offsets.vio Proofs/Split.vio
 Proofs/Unknown.vos Proofs/Unknown.vok Proofs/Unknown.required_vos: Proofs/Unknown.v Model/Scan.vos Model/Parse.vos Spec/Lex.vos Proofs/BytesFacts.vos Proofs/ScanRef.vos Proofs/Offsets.vos Proofs/Split.vos
